@@ -951,6 +951,7 @@ func (g *gen) dumpAll() {
 
 func (g *gen) snapshotCycle() {
 	g.syncLive(g.emit("p dump"))
+	g.emit("p statehash") // byte-exact tie of writeState (ids by rank)
 	g.emit("p snapshot s")
 	caps := []int{0, 1, 64, 1024, 70000}
 	g.emit(fmt.Sprintf("new q cap=%d logger=none", caps[g.r.Intn(len(caps))]))
